@@ -14,6 +14,8 @@ from linear_operator.operators import LinearOperator
 from sim import seams, storage
 from sim.engine import HarnessError
 
+REAL_RANDN = seams.REAL["randn"]
+
 # ----------------------------------------------------------------------------------------------------
 # settings vector (flat "set" events; scoping of contexts is C17's business)
 
@@ -490,11 +492,12 @@ def q_preconditioner(op, a, D, get):
     if closure is None or P is None or logdet_p is None:
         return QueryResult("ok", float("inf"), _sig(P, logdet_p), [], f"incomplete preconditioner triple: closure={'set' if closure else None}, "
                            f"P={'set' if P is not None else None}, logdet={'set' if logdet_p is not None else None}")
-    Pd = _dense(P).double()
+    Praw = _dense(P)
+    Pd = Praw.double()
     n = Pd.shape[-1]
     g = torch.Generator().manual_seed(11)
-    V = torch.randn(*Pd.shape[:-2], n, 2, dtype=D.dtype, generator=g)
-    back = closure((Pd.to(D.dtype) @ V))
+    V = REAL_RANDN(*Pd.shape[:-2], n, 2, dtype=Praw.dtype, generator=g)
+    back = closure(Praw @ V)
     e1 = _rel(back, V)
     ref = torch.logdet(Pd)
     e2 = float((torch.as_tensor(logdet_p).double() - ref).abs().max() / ref.abs().max().clamp_min(1.0))
